@@ -194,6 +194,15 @@ def _splice_multi(rng, graph, multi):
         graph["edges"].append((prev_last, first, None))
         prev_last = key - 1
     graph["kind"] += "+multi%d" % ncopy
+    if rng.random() < 0.3:
+        # the last fragment takes the lowest residue ids (a molecule that begins with a multi-residue block)
+        k = len(multi["resnames"])
+        s0 = graph["nodes"][0]["resid"]
+        for n in graph["nodes"][:-k]:
+            n["resid"] += k
+        for j, n in enumerate(graph["nodes"][-k:]):
+            n["resid"] = s0 + j
+        graph["kind"] += "+first"
 
 
 def write_case(case, workdir, graph_name="case.json", order=None, flip=None):
